@@ -1,5 +1,5 @@
 """C01 -- every submitted job resolves exactly once, with its own outcome."""
-from checks import c02, feedcommon, poolcommon, poolreal, racecommon
+from checks import poolparts, c02, feedcommon, poolcommon, poolreal, racecommon
 
 # the clauses of C01 that speak about the parts of map / imap jobs, in MapAsm.tla's terms
 PARTS = ['MapCallbacksOnce', 'MapReadyWhen', 'MapComplete', 'ImapComplete', 'ImapuNoDupNoAlien',
@@ -10,5 +10,6 @@ def main(ctx):
     racecommon.run(ctx)            # the parent's three outcome writers at check / set granularity
     feedcommon.run(ctx, 'C01')
     poolcommon.run(ctx, 'C01')
+    poolparts.run(ctx, 'C01')         # multi-part jobs under supervision
     c02.main(ctx, only=PARTS, known=False)
     poolreal.run(ctx, 'C01')
